@@ -12,41 +12,58 @@ open DoitModel.Load
 
 /-! ## totality: never an internal exception -/
 
-/-- full statement: loading never ends in an exception other than InvalidTask / InvalidDodoFile -/
-def total_full : Prop := ∀ (cmds : List Name) (cs : List Creator) (e : Exn), load cmds cs ≠ .crash e
-
-/-- Proved part: an internal exception can only come from one of three characterised shapes of a task dict
-    (`Safe`: no `clean` equal to `True` that is a number; no non-empty tuple `uptodate` together with a non-empty
-    `getargs`; no truthy unhashable `basename` in a yielded dict).  Missing for `total_full`: exactly these three
-    shapes, which do crash the current code (open findings crash-clean-eq-true, crash-uptodate-tuple-getargs,
-    crash-unhashable-basename; counterexample theorems below). -/
-theorem total_partial (cmds : List Name) (cs : List Creator) (hs : Safe cs = true) (e : Exn) :
-    load cmds cs ≠ .crash e := by
-  intro h
-  have := load_crash cmds cs e h
-  rw [hs] at this
-  cases this
+/-- loading never ends in an exception other than InvalidTask / InvalidDodoFile — at full strength since the fixes
+    5a43f74 (type-exact `check_attr`), 379257a (tuple `uptodate`) and 5cc6c19 (`basename` checked before use) -/
+theorem total (cmds : List Name) (cs : List Creator) (e : Exn) : load cmds cs ≠ .crash e :=
+  load_no_crash cmds cs e
 
 def actionsOnly : TDict := [(.actions, .list [[97]])]
 
-/-- `clean: 1` — passes `check_attr` because `1 == True`, then `for a in clean` raises TypeError -/
-theorem total_counterexample : ¬ total_full := by
-  intro h
-  exact h [] [⟨[102], 1, .dict (actionsOnly ++ [(.clean, .int 1)])⟩] .typeError (by decide)
+/-- the three former crash inputs are now invalid-task rejections -/
+example :
+    load [] [⟨[102], 1, .dict (actionsOnly ++ [(.clean, .int 1)])⟩] = .invalidTask ∧
+    load [] [⟨[102], 1, .dict (actionsOnly ++ [(.clean, .float 2)])⟩] = .invalidTask ∧
+    load [] [⟨[102], 1, .gen [.leaf (.dict (actionsOnly ++ [(.basename, .list [[120]])]) [] [])]⟩] = .invalidTask := by
+  decide
 
-theorem crash_clean_float :
-    load [] [⟨[102], 1, .dict (actionsOnly ++ [(.clean, .float 2)])⟩] = .crash .typeError := by decide
-
-/-- `uptodate: ('u',)` with `getargs: {'k': ('x', …)}`: `uptodate.extend` raises AttributeError -/
-theorem crash_uptodate_tuple_getargs :
+/-- a tuple `uptodate` with `getargs` is now accepted (both types are valid) -/
+example :
     load [] [⟨[120], 1, .dict actionsOnly⟩,
              ⟨[102], 2, .dict (actionsOnly ++ [(.uptodate, .tuple [[117]]), (.getargs, .dict [([107], some [120])])])⟩]
-      = .crash .attributeError := by decide
+      = .tasks [{ name := [120], taskDep := [], wildDep := [], setupTasks := [], calcDep := [], targets := [],
+                  fileDep := [], subtaskOf := none, hasSubtask := false },
+                { name := [102], taskDep := [], wildDep := [], setupTasks := [[120]], calcDep := [], targets := [],
+                  fileDep := [], subtaskOf := none, hasSubtask := false }] := by decide
 
-/-- a yielded dict with `basename: ['x']`: `basename in tasks` raises TypeError (unhashable) -/
-theorem crash_unhashable_basename :
-    load [] [⟨[102], 1, .gen [.leaf (.dict (actionsOnly ++ [(.basename, .list [[120]])]) [] [])]⟩]
-      = .crash .typeError := by decide
+/-- F-C18 crash-clean-eq-true / coerced-verbosity (fixed 5a43f74): the pinned `check_attr` (`value in valid[1]`)
+    accepted `clean: 1` — on which `for a in clean` raises TypeError — and `verbosity: True` -/
+theorem pinned_check_attr_counterexample :
+    checkAttrPinned (.int 1) ([.list, .tuple], [.true]) = true ∧
+    cleanStep (some (.int 1)) = .error (.crash .typeError) ∧
+    checkAttr (.int 1) ([.list, .tuple], [.true]) = false ∧
+    checkAttrPinned (.bool true) ([], [.none, .int 0, .int 1, .int 2]) = true ∧
+    checkAttr (.bool true) ([], [.none, .int 0, .int 1, .int 2]) = false := by decide
+
+/-- F-C18 crash-uptodate-tuple-getargs (fixed 379257a): pinned `uptodate.extend` on a tuple raised AttributeError -/
+theorem pinned_uptodate_tuple_counterexample :
+    getargsStepPinned (actionsOnly ++ [(.uptodate, .tuple [[117]]), (.getargs, .dict [([107], some [120])])])
+      = .error (.crash .attributeError) ∧
+    getargsStep (actionsOnly ++ [(.uptodate, .tuple [[117]]), (.getargs, .dict [([107], some [120])])])
+      = .ok [[120]] := by decide
+
+/-- F-C18 crash-unhashable-basename (fixed 5cc6c19): without the `basename` check `basename in tasks` raised TypeError -/
+theorem pinned_unhashable_basename_counterexample :
+    yieldDictPinned [] [102] (actionsOnly ++ [(.basename, .list [[120]])]) [] [] = .error (.crash .typeError) ∧
+    yieldDict [] [102] (actionsOnly ++ [(.basename, .list [[120]])]) [] [] = .error .invalidTask := by decide
+
+/-- F-C18 command-name-as-basename (fixed eeaaa80): the creator produces a task named `list`; only the new check in
+    `_process_gen` (`cmdClash`) turns that into InvalidDodoFile -/
+theorem pinned_command_name_counterexample :
+    generate [102] (.dict (actionsOnly ++ [(.basename, .str [108, 105, 115, 116])])) =
+      .ok [{ name := [108, 105, 115, 116], taskDep := [], wildDep := [], setupTasks := [], calcDep := [], targets := [],
+             fileDep := [], subtaskOf := none, hasSubtask := false }] ∧
+    load [[108, 105, 115, 116]] [⟨[102], 1, .dict (actionsOnly ++ [(.basename, .str [108, 105, 115, 116])])⟩]
+      = .invalidDodo := by decide
 
 /-! ## well-formedness of an accepted task set -/
 
@@ -112,7 +129,7 @@ theorem wellformed_groups_partial (cmds : List Name) (cs : List Creator) (ts : L
   obtain ⟨f, hf, hmap⟩ := control_extends ts0 ts hc
   rw [hmap]
   apply groupsWF_map_extends ts0 f hf
-  apply generateAll_groupsWF (sortByLine cs) ts0 _ hgen ((nodupB_iff _).mp h1)
+  apply generateAll_groupsWF cmds (sortByLine cs) ts0 _ hgen ((nodupB_iff _).mp h1)
   intro c hc'
   have := List.all_eq_true.mp (by simpa [Tidy] using ht) c ((mem_sortByLine cs c).mp hc')
   exact this
@@ -123,7 +140,7 @@ theorem definition_order (cmds : List Name) (cs : List Creator) (ts : List Task)
     ∃ parts, PartsOf (sortByLine cs) parts ∧ ts.map (·.name) = parts.flatten.map (·.name) := by
   obtain ⟨ts0, hl, hc⟩ := load_tasks_split cmds cs ts h
   obtain ⟨_, hgen⟩ := loadTasks_ok cmds cs ts0 hl
-  obtain ⟨parts, hp, hflat⟩ := generateAll_parts _ ts0 hgen
+  obtain ⟨parts, hp, hflat⟩ := generateAll_parts cmds _ ts0 hgen
   obtain ⟨f, hf, hmap⟩ := control_extends ts0 ts hc
   exact ⟨parts, hp, by rw [hmap, map_extends_names ts0 f hf, hflat]⟩
 
@@ -236,62 +253,44 @@ theorem accepted_results_valid (cmds : List Name) (cs : List Creator) (ts : List
   obtain ⟨hcmd, hgen⟩ := loadTasks_ok cmds cs ts0 hl
   intro c hc
   refine ⟨hcmd c hc, ?_⟩
-  obtain ⟨r, hr, _⟩ := generateAll_ok_mem _ ts0 hgen c ((mem_sortByLine cs c).mpr hc)
+  obtain ⟨r, hr, _⟩ := generateAll_ok_mem cmds _ ts0 hgen c ((mem_sortByLine cs c).mpr hc)
   exact generate_ok c.name c.result r hr
 
-/-- the typed reading of `Task.valid_attr`: instance of a listed class, or a listed literal *of the literal's type* -/
-def typedLit : RawVal → Lit → Bool
-  | .none, .none => true
-  | .bool true, .true => true
-  | .int m, .int n => m == (n : Int)
-  | _, _ => false
+/-- no accepted task other than a sub-task is named like a command — whether the name comes from the creator or from
+    a `basename` (fix eeaaa80) -/
+theorem rejects_command_names (cmds : List Name) (cs : List Creator) (ts : List Task)
+    (h : load cmds cs = .tasks ts) : ∀ t ∈ ts, t.subtaskOf = none → t.name ∉ cmds := by
+  obtain ⟨ts0, hl, hc⟩ := load_tasks_split cmds cs ts h
+  obtain ⟨_, hgen⟩ := loadTasks_ok cmds cs ts0 hl
+  obtain ⟨f, hf, hmap⟩ := control_extends ts0 ts hc
+  intro t ht hsub
+  rw [hmap] at ht
+  obtain ⟨t0, ht0, rfl⟩ := List.mem_map.mp ht
+  obtain ⟨hn, _, _, _, _, hs, _⟩ := hf t0
+  rw [hn]
+  exact generateAll_no_cmd cmds _ ts0 hgen t0 ht0 (by rw [← hs]; exact hsub)
 
-def typedOk (v : RawVal) (s : Spec) : Bool := s.1.any v.isInstance || s.2.any (typedLit v)
-
-/-- full statement about types: whatever passes `check_attr` is of a listed type / is a listed literal -/
+/-- full statement about types: whatever `Task.__init__` lets through is an instance of a listed class or a listed
+    literal of the literal's own type (`checkAttr`, type-exact since 5a43f74) -/
 def rejects_wrong_type_full : Prop :=
-  ∀ (a : Attr) (v : RawVal) (s : Spec), validAttr a = some s → checkAttr (effective a v) s = true → typedOk v s = true
+  ∀ (a : Attr) (v : RawVal) (s : Spec), validAttr a = some s → checkAttr (effective a v) s = true → checkAttr v s = true
 
-/-- Proved part: a value that passes `check_attr` without being of a listed type is a bool / int / float that is
-    `==` to a listed literal, or a falsy `getargs`.  Missing: these coercions are accepted by the current code
-    (open findings coerced-verbosity, coerced-getargs-falsy, crash-clean-eq-true). -/
-theorem rejects_wrong_type_partial (a : Attr) (v : RawVal) (s : Spec) (hs : validAttr a = some s)
+/-- Proved part: the only value that passes without being of a listed type / a listed literal is a falsy `getargs`
+    (`getargs = getargs or {}` runs before the check).  Missing: exactly that (open finding coerced-getargs-falsy). -/
+theorem rejects_wrong_type_partial (a : Attr) (v : RawVal) (s : Spec) (_hs : validAttr a = some s)
     (hc : checkAttr (effective a v) s = true) :
-    typedOk v s = true ∨ (a = .getargs ∧ v.truthy = false) ∨
-      (∃ b, v = .bool b) ∨ (∃ n, v = .int n) ∨ (∃ q, v = .float q) := by
-  cases v with
-  | bool b => exact Or.inr (Or.inr (Or.inl ⟨b, rfl⟩))
-  | int n => exact Or.inr (Or.inr (Or.inr (Or.inl ⟨n, rfl⟩)))
-  | float q => exact Or.inr (Or.inr (Or.inr (Or.inr ⟨q, rfl⟩)))
-  | none =>
-    cases a <;> simp [validAttr, specOf, modelValidAttr] at hs <;> subst hs <;>
-      simp_all [checkAttr, typedOk, effective, RawVal.isInstance, RawVal.eqLit, typedLit, RawVal.truthy]
-  | str x =>
-    cases a <;> simp [validAttr, specOf, modelValidAttr] at hs <;> subst hs <;>
-      simp_all [checkAttr, typedOk, effective, RawVal.isInstance, RawVal.eqLit, typedLit, RawVal.truthy] <;>
-      (by_cases hx : x = [] <;> simp_all)
-  | list x =>
-    cases a <;> simp [validAttr, specOf, modelValidAttr] at hs <;> subst hs <;>
-      simp_all [checkAttr, typedOk, effective, RawVal.isInstance, RawVal.eqLit, typedLit, RawVal.truthy] <;>
-      (by_cases hx : x = [] <;> simp_all)
-  | tuple x =>
-    cases a <;> simp [validAttr, specOf, modelValidAttr] at hs <;> subst hs <;>
-      simp_all [checkAttr, typedOk, effective, RawVal.isInstance, RawVal.eqLit, typedLit, RawVal.truthy] <;>
-      (by_cases hx : x = [] <;> simp_all)
-  | dict x =>
-    cases a <;> simp [validAttr, specOf, modelValidAttr] at hs <;> subst hs <;>
-      simp_all [checkAttr, typedOk, effective, RawVal.isInstance, RawVal.eqLit, typedLit, RawVal.truthy]
-  | callable =>
-    cases a <;> simp [validAttr, specOf, modelValidAttr] at hs <;> subst hs <;>
-      simp_all [checkAttr, typedOk, effective, RawVal.isInstance, RawVal.eqLit, typedLit, RawVal.truthy]
-  | object =>
-    cases a <;> simp [validAttr, specOf, modelValidAttr] at hs <;> subst hs <;>
-      simp_all [checkAttr, typedOk, effective, RawVal.isInstance, RawVal.eqLit, typedLit, RawVal.truthy]
+    checkAttr v s = true ∨ (a = .getargs ∧ v.truthy = false) := by
+  unfold effective at hc
+  by_cases ha : a = .getargs
+  · by_cases ht : v.truthy = true
+    · left; simpa [ha, ht] using hc
+    · right; exact ⟨ha, by simpa using ht⟩
+  · left; simpa [ha] using hc
 
-/-- `verbosity: True` passes the table (`True == 1`) -/
+/-- `getargs: False` passes -/
 theorem rejects_wrong_type_counterexample : ¬ rejects_wrong_type_full := by
   intro h
-  have := h .verbosity (.bool true) ([], [.none, .int 0, .int 1, .int 2]) (by decide) (by decide)
+  have := h .getargs (.bool false) ([.dict], []) (by decide) (by decide)
   revert this; decide
 
 /-! ## accepted although the statement lists them as defects (open findings; replayed on the implementation) -/
@@ -300,15 +299,15 @@ def taskOf (nm : Name) : Task :=
   { name := nm, taskDep := [], wildDep := [], setupTasks := [], calcDep := [], targets := [], fileDep := [],
     subtaskOf := none, hasSubtask := false }
 
-/-- a returned dict with `basename: 'list'` is accepted although `list` is a command name -/
-theorem accepts_command_name_as_basename :
-    load [[108, 105, 115, 116]] [⟨[102], 1, .dict (actionsOnly ++ [(.basename, .str [108, 105, 115, 116])])⟩]
-      = .tasks [taskOf [108, 105, 115, 116]] := by decide
+/-- `getargs: False` is accepted (`verbosity: True` no longer is) -/
+theorem accepts_coerced_getargs :
+    load [] [⟨[102], 1, .dict (actionsOnly ++ [(.getargs, .bool false)])⟩] = .tasks [taskOf [102]] ∧
+    load [] [⟨[102], 1, .dict (actionsOnly ++ [(.verbosity, .bool true)])⟩] = .invalidTask := by decide
 
-/-- `verbosity: True`, `getargs: False` are accepted -/
-theorem accepts_coerced_values :
-    load [] [⟨[102], 1, .dict (actionsOnly ++ [(.verbosity, .bool true), (.getargs, .bool false)])⟩]
-      = .tasks [taskOf [102]] := by decide
+/-- in a `name: None` dict the `actions` value is discarded unchecked -/
+theorem accepts_group_actions_of_any_type :
+    load [] [⟨[102], 1, .gen [.leaf (.dict [(.name, .none), (.actions, .int 5)] [] [])]⟩]
+      = .tasks [{ taskOf [102] with hasSubtask := true }] := by decide
 
 /-- a sub-task `name: 5` is formatted into `f:5` -/
 theorem accepts_nonstr_subtask_name :
@@ -333,8 +332,7 @@ example :
       = .tasks [{ taskOf [97] with targets := [[111]] },
                 { taskOf [103] with taskDep := [[103, 58, 115], [103, 58, 116]], hasSubtask := true },
                 { taskOf [103, 58, 115] with setupTasks := [[97]], subtaskOf := some [103] },
-                { taskOf [103, 58, 116] with subtaskOf := some [103] }] ∧
-    Safe [⟨[103], 5, .gen [.leaf (.dict (actionsOnly ++ [(.name, .str [115]), (.getargs, .dict [([107], some [97])])]) [] [])]⟩] = true := by
+                { taskOf [103, 58, 116] with subtaskOf := some [103] }] := by
   decide
 
 /-- each rejection class is reachable -/
